@@ -393,6 +393,13 @@ func (h *HTTPSim) panos(w http.ResponseWriter, r *http.Request, ord int) {
 		if h.deliverFault(w, f, ord, "commit", "save") {
 			return
 		}
+		if f != nil && f.Kind == "commit-nojob" {
+			// The device says success but names no job: nothing was
+			// enqueued, nothing will be committed.
+			h.eventM(ord, "commit (answered without job)", "save", "fault:commit-nojob", f.Kind, m.User)
+			io.WriteString(w, `<response status="success" code="19"><result></result></response>`)
+			return
+		}
 		ok := h.Spec.Panos.Commit()
 		if f != nil && f.Kind == "commit-fail" {
 			ok = false
